@@ -671,7 +671,14 @@ class EngineRun:
         q = (raw.get("t2") or {}).get("quality")
         if isinstance(q, dict) and "trace_dir" not in q:
             q["trace_dir"] = os.path.join(self.env.root, "qtrace")
-        return make_cfg(raw)
+        cfg = make_cfg(raw)
+        # settings a caller puts on its configuration object by hand, after (or without) validation
+        for path, value in getattr(self, "hand_set", None) or []:
+            cur = cfg
+            for kk in path[:-1]:
+                cur = cur[kk]
+            cur[path[-1]] = copy.deepcopy(value)
+        return cfg
 
     def step(self, op: Dict[str, Any]) -> Any:
         k = op["op"]
